@@ -1089,7 +1089,8 @@ END:VTODO\n";
 	with (echs_idiff_t d = t->dur) {
 		const int s = d.d / 1000U + !!(d.d % 1000U);
 
-		rc -= fdprintf("DURATION:%d\n", s) < 0;
+		/* the reader insists on the ISO 8601 form */
+		rc -= fdprintf("DURATION:PT%dS\n", s) < 0;
 	}
 	with (unsigned int um = 0066U) {
 		if (t->t->umsk < 0777U) {
